@@ -183,6 +183,16 @@ def build_fields(model, sel, key, fields, only=None, with_leaves=True):
             continue
         child = build_node(model, sel, ck)
         fields.edges.append(Edge(gid[1], model.lines[ck]["attrs"]["fprefix"], "some" in g, child, ck))
+    # the macro names one const item after every flatten prefix and puts them into one block: the specification
+    # must hand out distinct words (C07 quantifies over definitions that compile)
+    seen = {}
+    for e in fields.edges:
+        if e.fk == "none":
+            continue
+        norm = "".join(ch for ch in e.fprefix.lower() if ch.isalnum())
+        if norm in seen:
+            raise ValueError("two flatten fields of %s share the prefix word %r / %r" % ("/".join(key[1:]), seen[norm], e.fprefix))
+        seen[norm] = e.fprefix
 
 
 def build_node(model, sel, key, only=None, with_leaves=True):
